@@ -62,7 +62,7 @@ pub fn run(ctx: &Ctx) -> Report {
     // every second (fourth in the quick tier) program of the large generator families, every program of the
     // small ones (a family of a few dozen programs is a family of special cases: each one counts)
     let mut by_family: BTreeMap<&'static str, Vec<String>> = BTreeMap::new();
-    for c in c05::cases_for_c04(false).into_iter().chain(c06::cases_for_c04(false)).chain(c07::cases_all(false)).chain(c08::cases_for_c04(false)).chain(c18::cases_for_c04(false)) {
+    for c in c05::cases_for_c04(false).into_iter().chain(c05::operator_cases()).chain(c06::cases_for_c04(false)).chain(c07::cases_all(false)).chain(c08::cases_for_c04(false)).chain(c18::cases_for_c04(false)) {
         by_family.entry(c.family).or_default().push(print_program(&c.prog, false));
     }
     let stride = if thorough { 2 } else { 4 };
@@ -225,7 +225,7 @@ pub fn run(ctx: &Ctx) -> Report {
     report.cov("traces_validated_against_impl", json!(runs));
     report.cov("distinct_nontrivial", json!(outcomes.len()));
     report.cov("exhaustive", json!(true));
-    report.cov("rule", json!("configurations: the dev profile and the release profile with each subset of {safe_active_fiber, safe_class_lookup, safe_stack, safe_vm_opcodes, debug_stress_gc} (quick: none and all; thorough: all 32, plus dev with all switches), built from /repo's working tree WITHOUT the verification hooks; programs: every repository script (with its module table; scripts calling clock() excluded) and every 4th/2nd program of the large families of the C05/C06/C07/C08/C18 corpora and every program of their small families (up to 400 programs), C01's heap-shape programs, the loop-churn family, every 16th/4th of C13's probe batches (indices and slice bounds up to and beyond the machine's integer limits, string methods) and C02's operand-stack boundary sweep (the stack filled exactly, one short, one over, ...: every 3rd program plus all of depth 31 in the quick tier); each program runs on every configuration and the printed lines and outcome (addresses normalised) must be identical. Only programs that exhaust the hooks runner's instruction budget are left out. distinct_nontrivial = distinct observed outcomes."));
+    report.cov("rule", json!("configurations: the dev profile and the release profile with each subset of {safe_active_fiber, safe_class_lookup, safe_stack, safe_vm_opcodes, debug_stress_gc} (quick: none and all; thorough: all 32, plus dev with all switches), built from /repo's working tree WITHOUT the verification hooks; programs: every repository script (with its module table; scripts calling clock() excluded) and every 4th/2nd program of the large families of the C05/C06/C07/C08/C18 corpora and every program of their small families (up to 400 programs), C05's operator families (every operator on every pair of operand kinds incl. NaN, infinities and numbers beyond the 64-bit integers), C01's heap-shape programs, the loop-churn family, every 16th/4th of C13's probe batches (indices and slice bounds up to and beyond the machine's integer limits, string methods) and C02's operand-stack boundary sweep (the stack filled exactly, one short, one over, ...: every 3rd program plus all of depth 31 in the quick tier); each program runs on every configuration and the printed lines and outcome (addresses normalised) must be identical. Only programs that exhaust the hooks runner's instruction budget are left out. distinct_nontrivial = distinct observed outcomes."));
     report.cov("bounds", json!({"configurations": cfgs.iter().map(|c| c.0.clone()).collect::<Vec<_>>(), "programs": n_programs}));
     report.cov("programs_compared", json!(compared));
     report.cov("programs_excluded_by_gate", json!(gated));
